@@ -169,6 +169,20 @@ class NFError(Exception):
   pass
 
 
+# Module-level numeric constants of the analysed program (UPPER_CASE names bound once, folded by sa.fold), set by the
+# framework for every run; a name is listed only if every module that defines it gives it the same value.  The builder
+# replaces such a name (also written <module>.NAME) by its value, so that `NUM_SPECIAL_MELODY_EVENTS` and `2`, or a range
+# written with MAX_NUM_VELOCITY_BINS and one written out, have the same normal form.
+GLOBAL_CONSTS = {}
+
+
+def _global_const(name):
+  v = GLOBAL_CONSTS.get(name)
+  if v is None:
+    return None
+  return Rat(Poly.const(Fraction(str(v)) if isinstance(v, float) else Fraction(v)))
+
+
 class Builder:
   """AST -> Rat.  env: name -> ast expr | Rat (substitutions).  strip: call
   names treated as identity (e.g. float)."""
@@ -231,6 +245,9 @@ class Builder:
           return self.rat(sub)
         finally:
           self.env = saved
+      g = _global_const(node.id)
+      if g is not None:
+        return g
       return Rat(Poly.atom(node.id))
     if isinstance(node, ast.Attribute):
       d = dotted(node)
@@ -243,6 +260,10 @@ class Builder:
           nd = dotted(self.env[root])
           if nd is not None:
             d = nd + '.' + rest
+        if d not in self.attr_alias and d.count('.') == 1 and root not in ('self', 'cls') and rest.isupper():
+          g = _global_const(rest)
+          if g is not None:
+            return g
         return Rat(Poly.atom(self.attr_alias.get(d, d)))
       return Rat(Poly.atom(self.text(node)))
     if isinstance(node, ast.UnaryOp):
